@@ -239,15 +239,27 @@ pub async fn listen() -> io::Result<(TcpListener, SocketAddr)> {
     Ok((l, a))
 }
 
+/// How long a scripted peer waits for the endpoint under test to connect. The
+/// checks start "connect" and "accept" together; if the connect fails (no free port
+/// under load) nobody ever arrives, so the accept must give up by itself.
+const ACCEPT_TIMEOUT: std::time::Duration = std::time::Duration::from_secs(10);
+
+fn accept_timed_out() -> io::Error {
+    io::Error::new(io::ErrorKind::TimedOut, "nobody connected to the scripted peer within 10 s")
+}
+
 pub async fn accept_tcp(l: &TcpListener) -> io::Result<TcpIo> {
-    let (s, _) = l.accept().await?;
+    let (s, _) = tokio::time::timeout(ACCEPT_TIMEOUT, l.accept()).await.map_err(|_| accept_timed_out())??;
     Ok(TcpIo::new(s))
 }
 
 pub async fn accept_ws(l: &TcpListener) -> io::Result<WsIo<TcpStream>> {
-    let (s, _) = l.accept().await?;
+    let (s, _) = tokio::time::timeout(ACCEPT_TIMEOUT, l.accept()).await.map_err(|_| accept_timed_out())??;
     let _ = s.set_nodelay(true);
-    let ws = accept_async(s).await.map_err(|e| io::Error::other(e.to_string()))?;
+    let ws = tokio::time::timeout(ACCEPT_TIMEOUT, accept_async(s))
+        .await
+        .map_err(|_| accept_timed_out())?
+        .map_err(|e| io::Error::other(e.to_string()))?;
     Ok(WsIo::new(ws))
 }
 
